@@ -502,6 +502,14 @@ impl PooledBuffer {
     /// Create a new pooled buffer of the specified size
     pub fn new(size: usize) -> Result<Self> {
         let pool = GLOBAL_POOLS.get_pool_for_size(size).clone();
+        // The buffer is backed by exactly one chunk: it must not expose more bytes
+        if size > pool.config().chunk_size {
+            return Err(ZiporaError::invalid_data(format!(
+                "buffer size {} exceeds the largest pool chunk size {}",
+                size,
+                pool.config().chunk_size
+            )));
+        }
         let chunk = pool.allocate()?;
 
         Ok(Self {
